@@ -38,8 +38,18 @@ pub struct DataUnion { pub fields: FieldsNamed, pub rest: DataRest }
 pub enum Data { Struct(DataStruct), Enum(DataEnum), Union(DataUnion) }
 pub struct DeriveInput { pub attrs: Vec<Attribute>, pub data: Data, pub rest: InputRest }
 
-/// the attribute's path prints as `typeshare` (x.path().to_token_stream().to_string() == "typeshare": quote / proc_macro2, uninterpreted)
-pub uninterp spec fn is_config(a: Attribute) -> bool;
+// quote / proc_macro2 printing of an attribute's path: `x.path().to_token_stream().to_string()` (uninterpreted, a function of the attribute)
+#[verifier::external_body] pub struct SynPath { _p: u8 }
+#[verifier::external_body] pub struct Tokens { _p: u8 }
+pub uninterp spec fn path_text(a: Attribute) -> Seq<char>;
+pub uninterp spec fn tokens_text(t: Tokens) -> Seq<char>;
+pub uninterp spec fn path_tokens(p: SynPath) -> Tokens;
+pub uninterp spec fn attr_path(a: Attribute) -> SynPath;
+impl Attribute { #[verifier::external_body] pub fn path(&self) -> (r: &SynPath) ensures *r == attr_path(*self), tokens_text(path_tokens(*r)) == path_text(*self) { unimplemented!() } }
+impl SynPath { #[verifier::external_body] pub fn to_token_stream(&self) -> (r: Tokens) ensures r == path_tokens(*self) { unimplemented!() } }
+impl Tokens { #[verifier::external_body] pub fn to_string(&self) -> (r: String) ensures r@ == tokens_text(*self) { unimplemented!() } }
+/// C19: THE typeshare attributes - those whose path prints as `typeshare`
+pub open spec fn is_config(a: Attribute) -> bool { path_text(a) == "typeshare"@ }
 pub open spec fn kept(s: Seq<Attribute>) -> Seq<Attribute> { s.filter(|a: Attribute| !is_config(a)) }
 
 // ---------- C19 vocabulary: `new` is `old` with exactly the typeshare attributes removed
@@ -65,11 +75,12 @@ pub open spec fn input_stripped(o: DeriveInput, n: DeriveInput) -> bool {
     n.attrs@ == o.attrs@ && n.rest == o.rest && data_stripped(o.data, n.data)
 }
 
-/// T3 - ASSUMED (std: Vec::retain keeps exactly the elements the predicate accepts, in order): the statement
-/// `attributes.retain(|x| x.path().to_token_stream().to_string() != CONFIG_ATTRIBUTE_NAME)`
+/// T14b - `v.retain(P)`: ASSUMED (std: Vec::retain keeps exactly the elements the predicate accepts, in order); the predicate stays the
+/// source's text, as a closure with a stated contract, `keep` being that contract as a specification function
 #[verifier::external_body]
-fn retain_not_config(attributes: &mut Vec<Attribute>)
-    ensures final(attributes)@ == kept(old(attributes)@)
+fn retain_by<F: Fn(&Attribute) -> bool>(v: &mut Vec<Attribute>, Ghost(keep): Ghost<spec_fn(Attribute) -> bool>, f: F)
+    requires forall|x: &Attribute| #[trigger] f.requires((x,)), forall|x: &Attribute, b: bool| #[trigger] f.ensures((x,), b) ==> b == keep(*x)
+    ensures final(v)@ == old(v)@.filter(keep)
 { unimplemented!() }
 
 // ---------- the macro's own frame: parsing and printing are syn / quote (uninterpreted functions of their argument)
@@ -103,9 +114,11 @@ STRIP = [
     ins(A.sig(fn='remove_configuration_from_attributes'), '''
         ensures /*C19: exactly the typeshare attributes go, the others stay in order*/ final(attributes)@ == kept(old(attributes)@),
     ''', cid='remove_configuration_from_attributes.contract'),
-    drop(A.text('const CONFIG_ATTRIBUTE_NAME: &str = "typeshare";'), tag='T3', note='the name the outlined retain statement compares with (part of the assumption is_config)'),
-    rep(A.text('attributes.retain(|x| x.path().to_token_stream().to_string() != CONFIG_ATTRIBUTE_NAME);'), 'retain_not_config(attributes);', tag='T3',
-        note='Vec::retain with a closure over quote / proc_macro2 printing: ASSUMED to keep exactly the attributes whose path is not `typeshare`'),
+    rep(A.text('const CONFIG_ATTRIBUTE_NAME: &str'), "const CONFIG_ATTRIBUTE_NAME: &'static str", tag='T4', note='the elided lifetime of a const item is static (Rust reference)'),
+    rep(A.text('attributes.retain(|x|'), 'proof { reveal_strlit("typeshare"); }\n        retain_by(attributes, Ghost(|a: Attribute| !is_config(a)), |x: &Attribute| -> (b: bool) '
+        'ensures /*C19: an attribute stays exactly when its path does not print as `typeshare`*/ b == !is_config(*x) {', tag='T14b',
+        note='Vec::retain as a function taking the predicate; the predicate stays the source\'s text'),
+    rep(A.next_tok('!= CONFIG_ATTRIBUTE_NAME', ')'), '})', tag='T14b'),
     # ---- nested fn remove_configuration_from_fields
     ins(A.sig(fn='remove_configuration_from_fields'), '''
         ensures /*C19: every field - named or unnamed - and nothing but its typeshare attributes*/ shape_stripped(*old(fields), *final(fields)),
@@ -159,14 +172,17 @@ MACRO = [
 UNIT = Unit(
     name='annot', props=['C19', 'C07'], prelude=PRELUDE, pre_verus='use vstd::std_specs::iter::IteratorSpec;\n',
     items=[
-        Item('strip_configuration_attribute', SRC, ['fn strip_configuration_attribute'], STRIP),
+        Item('strip_configuration_attribute', SRC, ['fn strip_configuration_attribute'], STRIP,
+             # T15: `String != &str` (std: compares as str) has no specification in vstd, `as_str() != ..` has
+             auto=(('tok', '.to_string() != CONFIG_ATTRIBUTE_NAME', '.to_string().as_str() != CONFIG_ATTRIBUTE_NAME', 'T15'),
+                   ('tok', '.to_string() == CONFIG_ATTRIBUTE_NAME', '.to_string().as_str() == CONFIG_ATTRIBUTE_NAME', 'T15'))),
         Item('typeshare', SRC, ['fn typeshare'], MACRO),
     ],
     functions=['strip_configuration_attribute', 'strip_configuration_attribute::remove_configuration_from_attributes', 'strip_configuration_attribute::remove_configuration_from_fields', 'typeshare'],
     trusted=[
         'T7: syn::DeriveInput / Data / DataEnum / DataStruct / DataUnion / Variant / Field as plain structs holding what the code touches (attrs, fields, variants) '
         'plus an opaque rest; Punctuated<T, P> as Vec<T>; syn::Fields as an enum Named / Unnamed / Unit whose iter_mut() is a mutable view of the field list (assumed); proc_macro::TokenStream opaque',
-        'ASSUMED: Vec::retain with the source\'s closure keeps exactly the attributes whose path does not print as `typeshare` (is_config: uninterpreted)',
+        'ASSUMED: Vec::retain keeps exactly the elements its predicate accepts, in order; the predicate itself (the path printed through quote equals `typeshare`) is verified, the printing is an uninterpreted function of the attribute',
         'vstd\'s prophetic specification of slice::IterMut is trusted',
         'ASSUMED: syn::parse::<DeriveInput> and quote printing are functions of their argument (parsed / printed: uninterpreted); printing a tree whose '
         'other parts are unchanged prints them unchanged is NOT part of the contract',
@@ -176,7 +192,8 @@ UNIT = Unit(
         'that re-printing an unchanged part of the tree through quote yields equivalent tokens (spans / hygiene)',
     ],
 )
-UNIT.allowed_calls = {'iter_mut', 'clone'}
+UNIT.allowed_calls = {'iter_mut', 'clone', 'as_str'}
+UNIT.forbid = ['.to_string() !=', '.to_string() ==', 'format!', '.contains(']
 
 
 def native(workdir):
